@@ -62,7 +62,7 @@ fn gen_inputs() -> Vec<Vec<Gm>> {
         if k % 2 == 0 {
             f3.push(Gm { file: 3, ecu: *b"ECU1", apid: *b"AP2\0", ctid: *b"CT2\0", recv_us: recv, ts_dms: 100_000 + (*off_ms as u32) * 10, mcnt: 40 + k as u8, text: format!("mixed ecu1 {k}") });
         } else {
-            f3.push(Gm { file: 3, ecu: *b"ECU2", apid: *b"AP1\0", ctid: *b"CT1\0", recv_us: recv, ts_dms: 500_000 + (*off_ms as u32 - 500) * 10, mcnt: 40 + k as u8, text: format!("mixed ecu2 {k}") });
+            f3.push(Gm { file: 3, ecu: *b"ECU2", apid: *b"AP1\0", ctid: *b"C9\0\0", recv_us: recv, ts_dms: 500_000 + (*off_ms as u32 - 500) * 10, mcnt: 40 + k as u8, text: format!("mixed ecu2 {k}") });
         }
     }
     vec![f0, f1, f2, f3]
@@ -194,7 +194,8 @@ impl World {
 </dltfilter>
 "#).expect("write dlf");
         let conv = format!("{dir}/f.txt");
-        std::fs::write(&conv, "AP2- CT1- AP1- CT2- ").expect("write conv");
+        // third pair: a context id shorter than its application id
+        std::fs::write(&conv, "AP2- CT1- AP1- CT2- AP1- C9-- ").expect("write conv");
         World { dir, files, merged, lc, calc, dlf, dlf_marker, conv }
     }
     /// positive filters (ecu, apid, ctid) and negative filters of a configuration
@@ -209,6 +210,7 @@ impl World {
             2 => {
                 pos.push((None, Some(b"AP2"), Some(b"CT1")));
                 pos.push((None, Some(b"AP1"), Some(b"CT2")));
+                pos.push((None, Some(b"AP1"), Some(b"C9")));
             }
             3 => {
                 // marker and event filters do not select
